@@ -120,21 +120,37 @@ def simultaneous(w, kind, conn, tag):
     return h
 
 
-def client_aborts(w, kind, conn, tag):
-    """the client resets its connection in mid-stream; the origin's connection must be closed promptly"""
-    h = dict(scenario="client-aborts", kind=kind, conn=conn, size=5000, tag=tag, behaviour="sink")
+def live_ids(w, source=None):
+    """ids of the entry proxy's live connections (of the one with the given client address); ids are never
+    reused, client ports are"""
+    try:
+        return {x.get("id") for x in w.p1.api("live")[1] if source is None or str(x.get("source")) == source}
+    except Exception as e:
+        return {"api-error: %s" % e}
+
+
+def client_aborts(w, kind, conn, tag, behaviour="hold"):
+    """the client resets its connection in mid-stream.  hold: the origin keeps writing and must find its
+    connection closed; idlehold: the origin stays silent, and the entry proxy must have finished the tunnel"""
+    h = dict(scenario="client-aborts-" + behaviour, kind=kind, conn=conn, size=5000, tag=tag, behaviour=behaviour)
     payload = c01.payload_for(tag, 5000)
     try:
-        c, ok, extra, reply = rw.open_tunnel(w, kind, conn, "sink")
+        c, ok, extra, reply = rw.open_tunnel(w, kind, conn, behaviour)
         if not ok:
             h["error"] = "not established"
             e2e.close_quiet(c)
             return h
         c.sendall(payload)
         time.sleep(0.3)
+        h["source"] = "%s:%d" % c.getsockname()
+        mine = live_ids(w, h["source"]) if behaviour == "idlehold" else set()
         c.setsockopt(socket.SOL_SOCKET, socket.SO_LINGER, struct.pack("ii", 1, 0))
         h["t_abort"] = time.time()
         c.close()
+        if behaviour == "idlehold":
+            time.sleep(PROMPT - 1.0)
+            h["ids"] = sorted(map(str, mine))
+            h["still_live"] = len(mine) != 1 or bool(mine & live_ids(w))
     except OSError as e:
         h["error"] = "io: %s" % e
     return h
@@ -149,16 +165,33 @@ def origin_aborts(w, kind, conn, tag):
             h["error"] = "not established"
             e2e.close_quiet(c)
             return h
+        mine = live_ids(w, "%s:%d" % c.getsockname()) if conn == "direct" else set()
         c.sendall(payload)
         t0 = time.time()
         got, how = e2e.recv_all(c, timeout=10)
         h["t_closed"] = time.time() - t0
         h["how"] = how
         h["got_len"] = len(got)
+        # the tunnel is finished as far as the proxy is concerned, although this client stays silent
+        time.sleep(1.0)
+        h["still_live"] = bool(mine & live_ids(w))
+        # an abort closes the whole tunnel: the proxy must not keep the client's sending direction open
+        h["write_failed_after"] = None
+        if how == "eof":
+            for _ in range(40):
+                try:
+                    c.sendall(b"c")
+                except OSError:
+                    h["write_failed_after"] = time.time() - t0
+                    break
+                time.sleep(0.1)
+        else:
+            h["write_failed_after"] = h["t_closed"]
     except OSError as e:
         h["t_closed"] = 0.0
         h["how"] = "reset"
         h["got_len"] = 0
+        h["write_failed_after"] = 0.0
     e2e.close_quiet(c)
     return h
 
@@ -196,17 +229,28 @@ def judge(rep, w, hs, io, hist, shapes, dist):
                     rep.fail("C04: %s: the client observed the origin's end-of-stream only after %.1fs" % (desc, h["t_client_saw_eof"]), rp)
                 if h["after"] != 0 or h["how2"] != "eof":
                     rep.fail("C04: %s: after both directions ended the client side was not closed cleanly (%d extra bytes, %s)" % (desc, h["after"], h["how2"]), rp)
-        elif sc == "client-aborts":
+        elif sc == "client-aborts-idlehold":
+            if h.get("still_live"):
+                rep.fail("C04: %s: %.1fs after the client's reset the tunnel is still listed in /api/live (the origin is silent)" % (desc, PROMPT - 1.0), rp)
+        elif sc == "client-aborts-hold":
             if len(mine) != 1:
                 rep.fail("C04: %s: %d origin connections carry this tunnel's tag" % (desc, len(mine)), rp)
                 continue
             o = mine[0]
-            closed = o.get("closed_at")
-            if closed is None or closed - h["t_abort"] > PROMPT:
-                rep.fail("C04: %s: the origin's connection was still open %.1fs after the client's reset" % (desc, PROMPT), rp)
+            wf = o.get("write_failed_at")
+            if not o.get("eof"):
+                rep.fail("C04: %s: the origin never saw its connection end after the client's reset" % desc, rp)
+            elif wf is None or wf - h["t_abort"] > PROMPT:
+                rep.fail("C04: %s: %.1fs after the client's reset the proxy still kept the origin's connection open (the origin could go on writing)" % (desc, PROMPT), rp)
         elif sc == "origin-aborts":
             if h["how"] == "timeout" or h["t_closed"] > PROMPT:
                 rep.fail("C04: %s: the client's connection was not closed within %.1fs of the origin's reset (%s)" % (desc, PROMPT, h["how"]), rp)
+            elif h.get("still_live") and h["conn"] == "direct":
+                # through a chain the entry proxy only sees its upstream proxy finish sending; it faces the
+                # aborting origin itself only with the direct connector
+                rep.fail("C04: %s: 1s after the client observed the end of its connection the tunnel is still listed in /api/live" % desc, rp)
+            elif (h["write_failed_after"] is None or h["write_failed_after"] > PROMPT + 1.0) and h["conn"] == "direct":
+                rep.fail("C04: %s: after the origin's reset the proxy only half-closed the client's connection (the client could go on writing for %.1fs)" % (desc, PROMPT), rp)
     # the record of each connection
     if hist is not None:
         by_port = collections.defaultdict(list)
@@ -244,7 +288,7 @@ def run(tier, seed, replay=None):
     configs = [(True, 65536), (False, 65536)] + ([(True, 4096), (False, 100)] if tier == "thorough" else [])
     for (splice, bufsz) in configs:
         w = rw.Chain(driver, "quick" if tier == "quick" else "thorough", splice=splice, bufsz=bufsz, name="c04-%s-%d" % ("s" if splice else "b", bufsz),
-                     behaviours=["source", "closefirst", "sink", "rst"], history=100000)
+                     behaviours=["source", "closefirst", "sink", "rst", "hold", "idlehold"], history=100000)
         jobs = []
         n = 0
         for kind in KINDS:
@@ -257,6 +301,7 @@ def run(tier, seed, replay=None):
                     jobs.append((origin_closes_first, (kind, conn, r.choice(sizes), "ocf/" + tag)))
                     jobs.append((simultaneous, (kind, conn, "sim/" + tag)))
                     jobs.append((client_aborts, (kind, conn, "cab/" + tag)))
+                    jobs.append((client_aborts, (kind, conn, "cai/" + tag, "idlehold")))
                     jobs.append((origin_aborts, (kind, conn, "oab/" + tag)))
         try:
             with concurrent.futures.ThreadPoolExecutor(16) as ex:
